@@ -143,3 +143,61 @@ func H_C11_global_fn() {
 	vAssert(g1 == w1 && g2 == w2, "C11 globally registered function: solo results")
 	vReach("end")
 }
+
+// a cached type being read (hit) while another goroutine's call evicts it
+type vP3 struct {
+	Z string `valid:"required"`
+}
+
+func H_C11_hit_vs_evict() {
+	a, z := vStr("a"), vStr("z")
+	c1 := func() string { return vErrText(Struct(&vP1{A: a, B: 1})) }
+	c2 := func() string { return vErrText(Struct(&vP3{Z: z})) }
+	cacheStructType = NewLRU(1)
+	_ = c1() // warm: vP1 is cached
+	var g1, g2 string
+	vGo(func() { g1 = c1() })
+	vGo(func() { g2 = c2() })
+	vJoin()
+	cacheStructType = NewLRU(1)
+	vAssert(g1 == c1(), "C11 cache hit during an eviction: solo result")
+	vAssert(g2 == c2(), "C11 evicting call: solo result")
+	vReach("end")
+}
+
+// both calls hit the same cached entry
+func H_C11_hit_hit() {
+	a, b := vStr("a"), vStr("b")
+	c1 := func() string { return vErrText(Struct(&vP1{A: a, B: 1})) }
+	c2 := func() string { return vErrText(Struct(&vP1{A: b, B: 7}, RM{"B": "le=3|too big"})) }
+	cacheStructType = NewLRU(2)
+	_ = c1()
+	var g1, g2 string
+	vGo(func() { g1 = c1() })
+	vGo(func() { g2 = c2() })
+	vJoin()
+	vAssert(g1 == c1() && g2 == c2(), "C11 two hits on one cached entry: solo results")
+	vReach("end")
+}
+
+// rules with quoted parts (the splitter's slow path) in both goroutines
+type vP4 struct {
+	A string `valid:"re='^[0-9]+$'|digits only,required"`
+}
+type vP5 struct {
+	B string `valid:"in=('a,b'/c),re='^[a-c,]+$'"`
+}
+
+func H_C11_quoted_rules() {
+	a, b := vStr("a"), vStr("b")
+	c1 := func() string { return vErrText(Struct(&vP4{A: a})) }
+	c2 := func() string { return vErrText(Struct(&vP5{B: b})) }
+	cacheStructType = NewLRU(1)
+	var g1, g2 string
+	vGo(func() { g1 = c1() })
+	vGo(func() { g2 = c2() })
+	vJoin()
+	cacheStructType = NewLRU(1)
+	vAssert(g1 == c1() && g2 == c2(), "C11 quoted rules: solo results")
+	vReach("end")
+}
